@@ -248,11 +248,13 @@ def load_known():
     return json.load(open(p)).get("findings", [])
 
 
-def known_match(pid, c, known):
+def known_match(pid, c, known, job=None):
     for k in known:
         if k.get("status") != "known" or k.get("property") != pid:
             continue
         m = k.get("match", {})
+        if m.get("sets") is not None and (job is None or job.get("sets", {}) != m["sets"]):
+            continue          # a listed finding is tied to the job (history class) that shows it; the same clause elsewhere is new
         if m.get("kind") and m["kind"] != c[0]:
             continue
         if m.get("clause") and m["clause"] != c[1]:
@@ -481,7 +483,7 @@ def main():
     known_lines = []
     unknown = []
     for c, (job, seed, res) in sorted(found.items(), key=lambda x: x[1][1]):
-        k = known_match(pid, c, known)
+        k = known_match(pid, c, known, job)
         if k:
             known_lines.append("KNOWN-FINDING: property=%s %s" % (pid, k.get("what", class_key(c))))
         else:
